@@ -460,6 +460,11 @@ where
         }
         let c = wrapped.clone();
         rec.truth("clone-shares", probe, Arc::ptr_eq(&*wrapped, &*c), "clone() produced a different allocation");
+        // a value that is shared (a second holder is alive) is checked like any other, through either holder
+        for r in restr_sets() {
+            rec.cmp("restrictions-while-shared", probe, &chk(v, &r), &chk(&wrapped, &r));
+            rec.cmp("restrictions-while-shared", probe, &chk(v, &r), &chk(&c, &r));
+        }
         // every way a clone can be taken shares: clone_from onto a fresh value, and through Vec / Option
         let mut fresh = MultiRef::new(T::default());
         fresh.clone_from(&wrapped);
